@@ -322,9 +322,15 @@ def _mqtt_install(lib):
     lib.opaque_attrs["Task"] = task_attr
 
     def await_task(I, v, fr, node):
-        # A-AIO: this code awaits a task only right after cancelling it, and the task bodies do not catch
-        # CancelledError: the awaiter gets CancelledError; the task is finished afterwards.
+        # A-AIO: this code awaits a task only right after cancelling it; the task is finished afterwards.  What the awaiter sees
+        # depends on where the task was: not started / suspended where CancelledError propagates -> CancelledError in the
+        # awaiter; suspended inside a `try ... except CancelledError` that ends the coroutine -> normal return.  Which await sites
+        # absorb the cancellation is read off the task body by its own unit (C16/saver-cancellation-table).
         I.c.heap.set("ghost.tasks", g(I, "ghost.tasks") - 1)
+        pos = g(I, "ghost.saver_pos")
+        absorbs = getattr(I, "task_absorbs_cancel_when_sleeping", False)
+        if absorbs and I.c.branch(pos == 2, "saver-was-sleeping"):
+            return None
         raise RaiseSig(_exc(I, "CancelledError", node))
     lib.await_opaque = {"Task": await_task}
 
@@ -335,6 +341,24 @@ def _mqtt_install(lib):
             return None
         return coro(run)
     lib.ext_calls["asyncio.gather"] = gather
+
+    def call_cancel_save(I, f, a, k, fr, n):
+        q = "aiomysensors.persistence.Persistence.start.cancel_save"
+        ct = I.w.contracts.get(q)
+        fn = I.w.functions.get(q)
+        if ct is None or fn is None:
+            raise Unsupported("call of the stored cancel_save closure without its contract")
+
+        def run(I3):
+            # the closure variable `task` is the saver task: not a parameter of the call
+            pre_task = I3.alloc(TOpaque("Task"))
+            saved = fn.closure
+            try:
+                return I3.w.spec.apply_contract(I3, ct, fn, [], {}, fr, n) if not fn.node.args.args else None
+            finally:
+                fn.closure = saved
+        return CoroVal(None, [], {}, runner=run)
+    lib.opaque_calls = {"cancel_save": call_cancel_save}
 
     # ---- contextlib.suppress
     def suppress(I, a, k, fr, n):
@@ -493,6 +517,7 @@ def _files_install(lib):
                             effect(I5, "write-in-progress", s)  # a crash during the write leaves a proper prefix
                             c5.heap.set("ghost.disk", z3.Concat(g(I5, "ghost.disk"), s) if not z3.is_string_value(g(I5, "ghost.disk")) or g(I5, "ghost.disk").as_string() else s)
                             effect(I5, "write-complete", s)
+                            c5.heap.set("ghost.saves", g(I5, "ghost.saves") + 1)  # one completed write of the persistence file
                             return None
                         return coro(run)
                     return Builtin("file.write", write)
@@ -530,14 +555,21 @@ def _files_install(lib):
 
     def json_dumps(I, a, k, fr, n):
         d = a[0]
-        if isinstance(d, Obj) and d.typ.kind == "dict":
-            return Sym(json_dump_of(d.ref), "str")
         if isinstance(d, LibObj) and d.kind == "local_dict":
-            return Sym(json_dump_of(d.obj(I).ref), "str")
+            d = d.obj(I)
+        if isinstance(d, Obj) and d.typ.kind == "dict":
+            if d.typ.args[0] == TInt:
+                I.c.heap.set("ghost.dumped_keys", I.d_dom(d))  # which keys the serialised object has
+            return Sym(json_dump_of(d.ref), "str")
         raise Unsupported("json.dumps of this value")
     lib.ext_calls["json.dumps"] = json_dumps
 
-    lib.ext_calls["asyncio.sleep"] = lambda I, a, k, fr, n: CoroVal(None, [], {}, runner=lambda I3: None)
+    def aio_sleep(I, a, k, fr, n):
+        def run(I3):
+            I3.c.heap.set("ghost.slept", I3.to_term(a[0], TInt))
+            return None
+        return CoroVal(None, [], {}, runner=run)
+    lib.ext_calls["asyncio.sleep"] = aio_sleep
 
 
 def json_value(I, j):
